@@ -282,6 +282,27 @@ Proof.
 Qed.
 Print Assumptions C01_session_independent.
 
+
+(* ---- rejected calls: the virtual-evidence checks stop at the FIRST offending entry, whatever follows it, and a
+   call is accepted only if every entry names a model variable with the model's cardinality and state order ---- *)
+Theorem C01_reject_first_offender :
+  forall (nodes : list var) (card : var -> nat) (pre post : list (var * nat * list nat)) (t : var * nat * list nat),
+  check_vev nodes card pre = 0 -> check_vev nodes card [t] <> 0 ->
+  check_vev nodes card (pre ++ t :: post) = check_vev nodes card [t] /\
+  forall Q E, query_rejects nodes card Q E (pre ++ t :: post) <> 0.
+Proof.
+  intros nodes card pre post t Hpre Ht.
+  assert (H : check_vev nodes card (pre ++ t :: post) = check_vev nodes card [t]).
+  { induction pre as [|[[x c] l] pre IH]; cbn [app].
+    - destruct t as [[x c] l]. cbn [check_vev] in *. destruct (negb (memv x nodes)); [reflexivity|].
+      destruct (negb (Nat.eqb c (card x))); [reflexivity|]. exfalso. apply Ht. reflexivity.
+    - cbn [check_vev] in *. destruct (negb (memv x nodes)); [discriminate|].
+      destruct (negb (Nat.eqb c (card x))); [discriminate|]. apply IH. exact Hpre. }
+  split; [exact H|]. intros Q E. unfold query_rejects. destruct (existsb (fun q => memv q E) Q); [discriminate|].
+  rewrite H. destruct (check_vev nodes card [t]) eqn:Ec; [contradiction|discriminate].
+Qed.
+Print Assumptions C01_reject_first_offender.
+
 (* every ordering heuristic returns a permutation of the variables it is asked to order *)
 Theorem C01_heuristics_perm :
   forall (card : var -> nat) (ord : forall A, list A -> list A),
